@@ -87,6 +87,10 @@ type pathSpec struct {
 	LComm      [][3]uint32 `json:"lcomm"`
 	UnkNil     bool        `json:"unk_nil,omitempty"`
 	Unk        []unkSpec   `json:"unk"`
+	// BGP path that was redistributed from a static path (what an Adj-RIB-Out holds for an exported static route): type
+	// BGP, RedistributedFrom static, the static part kept next to the fresh BGP part -> the API message carries both payloads
+	Redist   bool   `json:"redist,omitempty"`
+	StaticNH ipSpec `json:"static_nh,omitempty"`
 }
 
 type rcase struct {
@@ -214,6 +218,13 @@ func genPath(rng *rand.Rand) pathSpec {
 			p.Unk = append(p.Unk, u)
 		}
 	}
+	if rng.IntN(5) == 0 {
+		// redistributed static route: the BGP next hop is derived from the static one unless export rewrote it
+		p.Redist, p.StaticNH = true, p.NH
+		if rng.IntN(2) == 0 {
+			p.StaticNH = genIP(rng)
+		}
+	}
 	return p
 }
 
@@ -267,6 +278,12 @@ func build(c rcase) *route.Route {
 			continue
 		}
 		p.Type = route.BGPPathType
+		if s.Redist {
+			st := &route.Path{Type: route.StaticPathType, HiddenReason: s.Hidden, LTime: s.LTime, StaticPath: &route.StaticPath{NextHop: s.StaticNH.ip().Ptr()}}
+			if q, ok := st.CheckRedistribute(route.BGPPathType); ok {
+				p = q // type BGP, RedistributedFrom static, static part kept (as in AdjRIBOut.AddPath); the BGP part follows
+			}
+		}
 		b := &route.BGPPath{
 			BGPPathA: &route.BGPPathA{NextHop: s.NH.ip().Ptr(), Source: s.Source.ip().Ptr(), LocalPref: s.LocalPref, MED: s.MED,
 				BGPIdentifier: s.BGPID, OriginatorID: s.Originator, EBGP: s.EBGP, Origin: s.Origin, OnlyToCustomer: s.OTC},
